@@ -8,6 +8,7 @@ package props
 
 import (
 	"bufio"
+	"bytes"
 	"encoding/json"
 	"fmt"
 	"io"
@@ -28,6 +29,8 @@ type wresult struct {
 	Panic string          `json:"panic,omitempty"`
 	Data  json.RawMessage `json:"data,omitempty"`
 }
+
+const workerMark = "\x01VERIF-ANSWER:"
 
 // jobHandlers are registered by the property files (init functions).
 var jobHandlers = map[string]func(json.RawMessage) (any, error){}
@@ -69,6 +72,7 @@ func workerMain() {
 				}()
 			}
 			b, _ := json.Marshal(res)
+			out.WriteString(workerMark) // (the library logs warnings to stdout: answers are marked, the rest is skipped)
 			out.Write(b)
 			out.WriteByte('\n')
 			out.Flush()
@@ -133,8 +137,8 @@ func startWorker(stackMB int) (*worker, error) {
 	go func() {
 		for {
 			line, err := w.out.ReadBytes('\n')
-			if len(line) > 0 && line[len(line)-1] == '\n' {
-				w.lines <- line
+			if i := bytes.LastIndex(line, []byte(workerMark)); i >= 0 && line[len(line)-1] == '\n' {
+				w.lines <- line[i+len(workerMark):]
 			}
 			if err != nil {
 				close(w.lines)
